@@ -505,6 +505,19 @@ class SubsetState(object):
         return XorState(self, other_state)
 
 
+def _keep_single_element_dimensions(view, ndim):
+    """
+    A view that selects a single element of a categorical attribute returns
+    the label as a plain string, without the category codes. This replaces
+    such a view (one integer per dimension) by the equivalent view with slices
+    of length one, and returns whether it did so.
+    """
+    items = view if isinstance(view, tuple) else (view,)
+    if len(items) == ndim and all(isinstance(v, (int, np.integer)) and not isinstance(v, (bool, np.bool_)) for v in items):
+        return tuple(slice(v, v + 1 if v != -1 else None) for v in items), True
+    return view, False
+
+
 def _clear_mask_caches():
     # Masks are cached on the to_mask method of each subset state class
     classes = [SubsetState]
@@ -746,10 +759,11 @@ class CategoricalROISubsetState(SubsetState):
     @memoize
     @contract(data='isinstance(Data)', view='array_view')
     def to_mask(self, data, view=None):
+        view, single = _keep_single_element_dimensions(view, data.ndim)
         x = data[self.att, view]
         result = self.roi.contains(x, None)
         assert x.shape == result.shape
-        return result
+        return result.reshape(())[()] if single else result
 
     def copy(self):
         result = CategoricalROISubsetState()
@@ -1545,11 +1559,12 @@ class CategorySubsetState(SubsetState):
 
     @memoize
     def to_mask(self, data, view=None):
+        view, single = _keep_single_element_dimensions(view, data.ndim)
         vals = data[self._att, view]
         if isinstance(vals, categorical_ndarray):
             vals = vals.codes
         result = np.isin(vals.ravel(), self._categories)
-        return result.reshape(vals.shape)
+        return result.reshape(())[()] if single else result.reshape(vals.shape)
 
     def copy(self):
         return CategorySubsetState(self._att, self._categories.copy())
